@@ -691,6 +691,17 @@ def eager_scatter_tensor(op, subs, source, reduced_vars):
     if not all(isinstance(v, (Variable, Number, Slice, Tensor)) for k, v in subs):
         return None
 
+    # Inputs of the source that no substituted value mentions are plain batch
+    # inputs of the scatter: reducing them is an ordinary reduction of the
+    # source (the scatter kernel below overwrites, it does not accumulate).
+    value_inputs = frozenset().union(*(v.inputs for k, v in subs))
+    plain_vars = frozenset(
+        v for v in reduced_vars if v.name in source.inputs and v.name not in value_inputs
+    )
+    if plain_vars:
+        source = source.reduce(op, plain_vars)
+        reduced_vars = reduced_vars - plain_vars
+
     # Compute shapes.
     reduced_names = frozenset(v.name for v in reduced_vars)
     destin_inputs = OrderedDict()
